@@ -8,6 +8,8 @@
    Neither bound mentions the number of files. *)
 From XcpModel Require Import Base ConcBlock ConcFile.
 From XcpProofs Require Import ConcBlockProofs ConcFileProofs.
+From XcpModel Require Import Extracted.
+From XcpProofs Require Import ExtractedOk.
 From Coq Require Import Lia.
 Local Open Scope nat_scope.
 
@@ -32,6 +34,12 @@ Example C20_bound_attained :
   length (b_open s) = 3.
 Proof. vm_compute. reflexivity. Qed.
 
+(* ---- tie to the current source (translator): the model's definitions used above are
+   EQUAL to what /verif/xlate extracts from the repository on this run ---- *)
+Theorem C20_src_pool_queue_len : x_pool_queue_len = 128%N.
+Proof. exact x_pool_queue_len_ok. Qed.
+
 Print Assumptions C20_parblock_open_bound.
 Print Assumptions C20_parfile_open_bound.
 Print Assumptions C20_default_limit.
+Print Assumptions C20_src_pool_queue_len.
